@@ -108,7 +108,7 @@ CHECKS["C12"] = dict(
 CHECKS["C15"] = dict(
     category="proof",
     text="Layout part: for nested dict / tuple / namedtuple states with leaves of rank 0..3, flatten_tree and unflatten_array of the three factorisations are mutually inverse with the documented ravel orders (coefficient-major dense, (n,d) isotropic, (d,n) block-diagonal), and means / standard deviations come back in the caller's structure with the caller's values (pure data movement, decided exactly by index tracing). Permutation: a machine-checked lemma about the specification -- the first-order EKF step for the permuted problem (v = Pi u, field Pi f(Pi^T v, t), uninterpreted f, Jacobian obtained by differentiating the permuted field) started from the permuted state has the permuted gain / whitening witnesses, permuted mean and covariance and the same quasi-MLE term; with the C02 step contracts and gain uniqueness (C14 lemma) the dense solver is permutation-equivariant step by step.",
-    note="NOT covered by a contract: the jit / vmap clauses -- equality of jit(f) / vmap(f) with f is JAX's specification of its transformations, not a property of a function in /repo; what the other checks establish is that every function under contract extracts to a closed, effect-free jaxpr from abstract inputs (the precondition under which JAX's contract applies). Time-axis prepending is part of the C04 userfriendly_output contracts.",
+    note="the jit / vmap clauses are covered only by a bounded native stand-in (never counted as proved): adaptive solves of 3 factorisations x filter / fixed-point smoother with batch members needing 12 / 27 / 44 steps, compiled vs uncompiled and batched vs one at a time; NOT covered by a contract: the jit / vmap clauses -- equality of jit(f) / vmap(f) with f is JAX's specification of its transformations, not a property of a function in /repo; what the other checks establish is that every function under contract extracts to a closed, effect-free jaxpr from abstract inputs (the precondition under which JAX's contract applies). Time-axis prepending is part of the C04 userfriendly_output contracts.",
     design_ref="DESIGN.md section 4 (C15), 8.4",
 )
 CHECKS["C16"] = dict(
